@@ -50,6 +50,17 @@ def handleRun (j : Json) : Json :=
     ("final", jList (fun c => jInt (getNow c)) s'.comps),
     ("dp", jList (jList jInt) s'.dp)]
 
+/-- the same composition under an explicit listing (component indices stay as given) -/
+def handleRunOrd (j : Json) : Json :=
+  let s := parseState j
+  let order := (getArr j "listing").map asNat
+  let (ups, e, s') := runLoopOrd order (getNat j "fuel") s (getInt j "end") []
+  Json.mkObj [
+    ("updates", jList (fun p => Json.arr #[jNat p.1, jInt p.2]) ups),
+    ("end", match e with | .done => Json.str "done" | .err x => jSErr x | .outOfFuel => Json.str "outOfFuel"),
+    ("final", jList (fun c => jInt (getNow c)) s'.comps),
+    ("dp", jList (jList jInt) s'.dp)]
+
 def handleNeed (j : Json) : Json :=
   let dp := (getArr j "dp").map (fun l => (arr l).map asInt)
   let ads := (getArr j "ads").map parseAd
@@ -94,6 +105,6 @@ def handleC13 (j : Json) : Json :=
               ("need0", jOptInt (need (List.replicate ndp []) ads (getInt j "probe")))]
 
 def handlers : List (String × (Json → Json)) :=
-  [("sched_run", handleRun), ("sched_need", handleNeed), ("sched_deps", handleDeps), ("c13", handleC13)]
+  [("sched_run", handleRun), ("sched_run_ord", handleRunOrd), ("sched_need", handleNeed), ("sched_deps", handleDeps), ("c13", handleC13)]
 
 end Finam.Driver.Sched
